@@ -168,6 +168,47 @@ fn claimed_of(inst: &Instance, pert: Option<(usize, usize, u128)>) -> Vec<Vec<u1
     c
 }
 
+/// C02 rests on the random linear combination of ALL constraints: every transition and boundary
+/// constraint (and every DEEP term) must get its own coefficient — independent draws (linear), or
+/// distinct consecutive powers of one drawn alpha (algebraic: ascending, horner: descending) over
+/// the concatenation transition ++ boundary (trace ++ constraint columns).  The real drawing
+/// functions are run on a real coin; the oracle recomputes the expectation from a clone of the coin.
+pub fn run_coefficients(rng: &mut Rng, out: &mut Out, n: usize) {
+    use winter_air::{ConstraintCompositionCoefficients as CC, DeepCompositionCoefficients as DC};
+    use winter_crypto::RandomCoin;
+    use winter_math::FieldElement;
+    type B = f64::BaseElement;
+    type E = winter_math::fields::QuadExtension<B>;
+    type Coin = DefaultRandomCoin<Blake3_256<B>>;
+    let show = |v: &[E]| v.iter().map(|e| format!("{e}")).collect::<Vec<_>>().join(",");
+    for it in 0..n {
+        let seed: Vec<B> = (0..4).map(|_| B::new(rng.next())).collect();
+        let (t, b) = match it % 4 { 0 => (1usize, 1usize), 1 => (rng.range(1, 6) as usize, rng.range(1, 6) as usize), 2 => (rng.range(1, 40) as usize, 1), _ => (1, rng.range(1, 40) as usize) };
+        for (which, method) in [("cc", "linear"), ("cc", "algebraic"), ("cc", "horner"), ("dc", "linear"), ("dc", "algebraic"), ("dc", "horner")] {
+            // expectation from an independent walk over a clone of the coin
+            let mut c0 = Coin::new(&seed);
+            let expected: Vec<E> = match method {
+                "linear" => (0..t + b).map(|_| c0.draw::<E>().unwrap()).collect(),
+                _ => { let alpha: E = c0.draw().unwrap(); let mut p = vec![E::ONE; t + b]; for i in 1..t + b { p[i] = p[i - 1] * alpha; } if method == "horner" { p.reverse(); } p },
+            };
+            let exp_s = format!("{} | {}", show(&expected[..t]), show(&expected[t..]));
+            let seed2 = seed.clone();
+            out.count(&format!("coeffs:{which}:{method}"));
+            out.case(&format!("c02c {which} {method} {t} {b} {}", seed.iter().map(|e| e.as_int().to_string()).collect::<Vec<_>>().join("/")), &exp_s, move || {
+                let mut coin = Coin::new(&seed2);
+                let (first, second) = if which == "cc" {
+                    let c: CC<E> = match method { "linear" => CC::draw_linear(&mut coin, t, b), "algebraic" => CC::draw_algebraic(&mut coin, t, b), _ => CC::draw_horner(&mut coin, t, b) }.unwrap();
+                    (c.transition, c.boundary)
+                } else {
+                    let c: DC<E> = match method { "linear" => DC::draw_linear(&mut coin, t, b), "algebraic" => DC::draw_algebraic(&mut coin, t, b), _ => DC::draw_horner(&mut coin, t, b) }.unwrap();
+                    (c.trace, c.constraints)
+                };
+                format!("{} | {}", show(&first), show(&second))
+            });
+        }
+    }
+}
+
 /// honest instances whose assertions are long sequences (>= 64 values: the prover's large-polynomial
 /// boundary evaluator) with every first step / stride shape, under LDE blowups larger than the
 /// constraint-evaluation blowup; also periodic assertions with a non-zero first step.  Shared by
